@@ -208,7 +208,9 @@ def build_model(net):
                 raise Unsupported("dcline-at-dead-bus")
             continue
         hi = _f(r.max_p_mw)
-        units.append(dict(et="dcline", idx=int(i), lo=0.0, hi=hi if _fin(hi) else None,
+        # one-directional (documented): power leaves the line at the to bus as well, p_from*(1-l) - loss_mw >= 0
+        lo = max(0.0, float(r.loss_mw) / (1.0 - float(r.loss_percent) / 100.0))
+        units.append(dict(et="dcline", idx=int(i), lo=lo, hi=hi if _fin(hi) else None,
                           terms=[(find(r.from_bus), -1.0), (find(r.to_bus), 1.0 - float(r.loss_percent) / 100.0)]))
         add_fixed(r.to_bus, -float(r.loss_mw))
     return dict(nodes=sorted(comp), comp=comp, branches=branches, units=units, fixed=fixed, find=find, live=live)
